@@ -95,7 +95,7 @@ func TestC11(t *testing.T) {
 			evalEnum(c, "string", cs, checkC11, &nviol)
 		})
 	}
-	c.rapidStage("rapid", pick(100000, 3000000), func(rt *rapid.T) {
+	c.rapidStage("rapid", pick(320000, 3000000), func(rt *rapid.T) {
 		ver := rapid.SampledFrom([]int{2, 3}).Draw(rt, "version")
 		cs, cl := drawStringCase(rt, ver, int(pick(256, 2048)))
 		ds := refDefects(cs)
